@@ -50,7 +50,19 @@ pub fn install_panic_hook() {
         let mut site = site;
         if !site.starts_with("src/") && !is_harness_site(&site) {
             crate::trap::pause();
+            // symbolising needs address space of its own: lift the soft RLIMIT_AS meanwhile
+            let mut old = libc::rlimit { rlim_cur: 0, rlim_max: 0 };
+            // SAFETY: plain getrlimit/setrlimit on our own process.
+            unsafe {
+                libc::getrlimit(libc::RLIMIT_AS, &mut old);
+                let lifted = libc::rlimit { rlim_cur: old.rlim_max, rlim_max: old.rlim_max };
+                libc::setrlimit(libc::RLIMIT_AS, &lifted);
+            }
             let bt = std::backtrace::Backtrace::force_capture().to_string();
+            // SAFETY: as above.
+            unsafe {
+                libc::setrlimit(libc::RLIMIT_AS, &old);
+            }
             crate::trap::resume();
             let mut repo_frame: Option<String> = None;
             let mut harness_first = false;
